@@ -22,7 +22,7 @@ func universe() []ty {
 	i, s, n0, n1, u8 := sty{B: "int"}, sty{B: "string"}, tN(0).S, tN(1).S, sty{B: "uint8"}
 	u = append(u, tPtr(i), tPtr(n0), tPtr(s),
 		tSlice(i), tSlice(n1), tSlice(u8), tSlice(s),
-		tArr(3, i), tArr(3, n1), tArr(4, i),
+		tArr(3, i), tArr(3, n1), tArr(4, i), tArr(0, i),
 		tMap(s, i), tMap(i, s), tMap(n1, i),
 		tChan("both", i), tChan("send", i), tChan("recv", i), tChan("both", s), tChan("both", n1),
 		ty{K: "func"}, ty{K: "func", Args: []sty{i}, Rets: []sty{i}}, ty{K: "func", Args: []sty{n1}, Rets: []sty{i}},
@@ -38,12 +38,22 @@ func literals() []*expr {
 		{K: "lit", Lit: "int", V: -129}, {K: "lit", Lit: "int", V: 70000},
 		{K: "lit", Lit: "float", V: 1, Frac: true}, {K: "lit", Lit: "float", V: 2}, {K: "lit", Lit: "float", V: 0},
 		{K: "lit", Lit: "rune", V: 'a'}, {K: "lit", Lit: "string"}, {K: "lit", Lit: "bool", V: 1}, {K: "nil"},
+		// typed constants: zero divisors, shift counts and indexes whose value must be examined (F12-9, F12-18)
+		typedConst("int", 0), typedConst("int", -1),
 	}
+}
+
+func typedConst(b string, v int64) *expr {
+	t := tB(b)
+	return &expr{K: "conv", T: &t, A: &expr{K: "lit", Lit: "int", V: v}}
 }
 
 func litClass(e *expr) string {
 	if e.K == "nil" {
 		return "nil"
+	}
+	if e.K == "conv" {
+		return "typed-" + e.T.class() + "-" + litClass(e.A)
 	}
 	switch e.Lit {
 	case "int":
@@ -348,6 +358,28 @@ func enumProbes(rng *rand.Rand, full bool, keep float64) []probe {
 				{K: "assign", I: 2, E: &expr{K: "var", I: 1}}}}, a, b)
 		}
 	}
+	// `(a == a) && b`, `b || (a != a)`: a comparison, untyped boolean in Go, combined with a value of every type (F12-3, F12-19),
+	// also as the source of a declaration of type bool and of the operand's own type
+	for _, a := range ops {
+		for _, op := range []string{"land", "lor"} {
+			op := op
+			cmpOf := func(e *expr) *expr { return &expr{K: "cmp", Op: "eq", A: e, B: e.clone()} }
+			add("logical-cmp", op+":left", mk([]operand{a}, func(es []*expr, nv int) []*stmt {
+				return []*stmt{{K: "define", E: &expr{K: "bin", Op: op, A: cmpOf(es[0]), B: es[0].clone()}}}
+			}), a)
+			add("logical-cmp", op+":right", mk([]operand{a}, func(es []*expr, nv int) []*stmt {
+				return []*stmt{{K: "define", E: &expr{K: "bin", Op: op, A: es[0], B: cmpOf(es[0].clone())}}}
+			}), a)
+			bt := tB("bool")
+			add("logical-cmp-decl-bool", op, mk([]operand{a}, func(es []*expr, nv int) []*stmt {
+				return []*stmt{{K: "decl", T: &bt, E: &expr{K: "bin", Op: op, A: cmpOf(es[0]), B: es[0].clone()}}}
+			}), a)
+			at := *a.t
+			add("logical-cmp-decl-own", op, mk([]operand{a}, func(es []*expr, nv int) []*stmt {
+				return []*stmt{{K: "decl", T: &at, E: &expr{K: "bin", Op: op, A: es[0], B: cmpOf(es[0].clone())}}}
+			}), a)
+		}
+	}
 	// arity of calls and returns
 	i := sty{B: "int"}
 	for np := 0; np <= 2; np++ {
@@ -387,6 +419,35 @@ func enumProbes(rng *rand.Rand, full bool, keep float64) []probe {
 		}
 		f.Body = []*stmt{{K: "ret", Args: vals}}
 		out = append(out, probe{P: &prog{Funcs: []*fn{f}, Main: []*stmt{{K: "define", E: &expr{K: "call", I: 0}}}}, Ctx: "call-value", Class: fmt.Sprintf("call-value:%d-results", nr)})
+		// the same call in the other single-value contexts (F12-12): operand, condition, declaration, assignment, send,
+		// index, conversion, argument of a one-parameter function, sole operand of a return
+		call := func() *expr { return &expr{K: "call", I: 0} }
+		one := &expr{K: "lit", Lit: "int", V: 1}
+		it, ct, st := tB("int"), tChan("both", i), tSlice(i)
+		ctxs := []struct {
+			name string
+			main []*stmt
+		}{
+			{"operand-left", []*stmt{{K: "define", E: &expr{K: "bin", Op: "add", A: call(), B: one.clone()}}}},
+			{"operand-right", []*stmt{{K: "declz", T: &it}, {K: "define", E: &expr{K: "bin", Op: "mul", A: &expr{K: "var", I: 0}, B: call()}}}},
+			{"comparison", []*stmt{{K: "define", E: &expr{K: "cmp", Op: "eq", A: call(), B: one.clone()}}}},
+			{"unary", []*stmt{{K: "define", E: &expr{K: "un", Op: "neg", A: call()}}}},
+			{"shift-count", []*stmt{{K: "declz", T: &it}, {K: "define", E: &expr{K: "shift", Op: "shl", A: &expr{K: "var", I: 0}, B: call()}}}},
+			{"condition", []*stmt{{K: "if", E: &expr{K: "cmp", Op: "lt", A: call(), B: one.clone()}, Then: []*stmt{}}}},
+			{"decl", []*stmt{{K: "decl", T: &it, E: call()}}},
+			{"assign", []*stmt{{K: "declz", T: &it}, {K: "assign", I: 0, E: call()}}},
+			{"opassign", []*stmt{{K: "declz", T: &it}, {K: "opassign", Op: "add", I: 0, E: call()}}},
+			{"send", []*stmt{{K: "declz", T: &ct}, {K: "send", C: &expr{K: "var", I: 0}, E: call()}}},
+			{"index", []*stmt{{K: "declz", T: &st}, {K: "define", E: &expr{K: "index", A: &expr{K: "var", I: 0}, B: call()}}}},
+			{"conversion", []*stmt{{K: "define", E: &expr{K: "conv", T: &it, A: call()}}}},
+		}
+		for _, cx := range ctxs {
+			out = append(out, probe{P: &prog{Funcs: []*fn{f}, Main: cx.main}, Ctx: "call-value", Class: fmt.Sprintf("call-value-%s:%d-results", cx.name, nr)})
+		}
+		g := &fn{Params: []sty{i}, Body: []*stmt{{K: "ret"}}}
+		out = append(out, probe{P: &prog{Funcs: []*fn{f, g}, Main: []*stmt{{K: "call", I: 1, Args: []*expr{call()}}}}, Ctx: "call-value", Class: fmt.Sprintf("call-value-argument:%d-results", nr)})
+		h := &fn{Rets: []sty{i}, Body: []*stmt{{K: "ret", Args: []*expr{call()}}}}
+		out = append(out, probe{P: &prog{Funcs: []*fn{f, h}}, Ctx: "call-value", Class: fmt.Sprintf("call-value-return:%d-results", nr)})
 	}
 	out = append(out, probe{P: &prog{Main: []*stmt{{K: "define", E: &expr{K: "var", I: 3}}}}, Ctx: "undefined", Class: "undefined:var"})
 	out = append(out, probe{P: &prog{Main: []*stmt{{K: "call", I: 2}}}, Ctx: "undefined", Class: "undefined:func"})
